@@ -265,10 +265,16 @@ export class RangeListManager {
         const item = items[i]!
         const index = indexes === null ? i : indexes[i]!
         const oldIndex = oldIndexes === null ? i : oldIndexes[i]!
-        const u =
-          updatePathTree === true || updatePathTree === undefined
-            ? updatePathTree
-            : (updatePathTree as { [key: string]: UpdatePathTreeNode })[index]
+        let u: UpdatePathTreeRoot
+        if (index !== oldIndex) {
+          // (an object list: the field at this position is another one than before,
+          // so the node shows another item, whatever the tree says about the new field)
+          u = true
+        } else if (updatePathTree === true || updatePathTree === undefined) {
+          u = updatePathTree
+        } else {
+          u = (updatePathTree as { [key: string]: UpdatePathTreeNode })[index]
+        }
         updateListItem(
           item,
           index,
